@@ -185,6 +185,19 @@ def body_geometry(case):
         raise Violation(
             f"instant {i} of {M}{' (explicit fractions after a whole-grid throw on the same object)' if sub else ''}: kept={bool(kept[i])}, but the source nadir angle is {math.degrees(alpha[i])!r} deg (horizon {math.degrees(alpha_h)!r}, limit {math.degrees(alpha_lim)!r} deg: occulted={bool(alpha[i] < alpha_h)}, emergence below limit={bool(alpha[i] > alpha_lim)})"
         )
+    if case.get("subset") is None and M >= 2 and (M % 2 == 0):
+        # a copy.copy of the thrown object throws a same-length batch of its own: the original's kept set is untouched
+        import copy
+
+        with quiet():
+            with cut("copy.copy of the thrown geometry throws a same-length batch"):
+                clone = copy.copy(g)
+                clone.throw(((np.arange(M) + 0.5) / M)[::-1].copy())
+                clone.val_times()
+            with cut("val_times() of the original afterwards"):
+                kept_again = g.val_times()
+        require(len(kept_again) == len(kept_times) and bool(np.all(np.abs((kept_again - kept_times).to_value("s")) <= 1e-9)) if len(kept_times) else len(kept_again) == 0, f"the kept instants of the geometry object changed ({len(kept_times)} -> {len(kept_again)}) when a copy.copy of it threw a same-length batch of its own")
+        labels.add("shallow_copy_threw")
     # triangle relations on the reported values
     with cut("accessors"):
         beta = np.asarray(g.beta_rad(), dtype=float)
